@@ -51,6 +51,23 @@ CHECKS.update({
    text="Every call cycle whose depth follows the nesting of an Expr/Value tree must contain a depth test dominating the recursive calls; the generated LR parser must be non-recursive. Decides the cause of stack exhaustion (unbounded input-driven recursion), not the depth at which a given stack dies. 12 unguarded cycles are known findings.",
    note="rustc instance resolution and upstream MIR; std-internal bounded recursion (sort, fmt) is excluded by rule."),
 })
+CHECKS.update({
+ "C06": dict(cat="other", ref="DESIGN.md §3.6", technique="hazard-site analysis of user-written parser code over the monomorphic call graph + slicing obligations discharged on token regexes (automata)",
+   text="Every crate-local body reachable (monomorphic call graph, through lalrpop_util's generic driver) from Expr::parse / Rule::parse is split into user-written code (134 grammar actions, literal helpers, unescape, rule builder, constructors) and the generated LR automaton. User code must contain no panic/lossy site; each string slice is admitted only if the regex of the one token whose action calls the helper proves the offsets in range and on character boundaries, and the helper has no other caller.",
+   note=TB_MIR + "the automaton generated by lalrpop 0.22.2 and its runtime (lalrpop_util, regex-automata) are trusted and counted; spec/callees.py."),
+ "C07": dict(cat="proof", ref="DESIGN.md §3.7", technique="grammar extraction from the generated parser + action terms from MIR; bisimulation with the precedence-table grammar; Earley probe suite",
+   text="The expanded BNF printed in the generated parser (121 productions) with action terms read off the MIR of the 134 action functions is normalised and compared, up to renaming of nonterminals, with the grammar written from the property's table: equal grammars derive the same sentences with the same trees for all lengths (unambiguity: lalrpop's LR(1) check). A probe suite (every operator pair, unary/postfix mixes, if-nesting, atoms, aliases, lists/maps, truncations) is parsed with both grammars as cross-check and to produce witnesses.",
+   note="lalrpop implements the LR(1) construction for the BNF it prints; rules/tss.py for action terms; spec/precedence.py; the lexer side is C08's. If the structural proof is unavailable (refactored grammar shape) the verdict is the bounded probe suite and the evidence says so."),
+ "C08": dict(cat="other", ref="DESIGN.md §3.8", technique="lexer-table automata (inclusion, overlap/winner, boundary) + MIR summaries of the literal helpers and the escape switch",
+   text="Token->helper wiring and helper summaries (stripped prefix = the regex's fixed prefix, radix, conversion, variant), the escape table read off unescape's MIR, promised spellings inside token languages, token bodies free of spellings the conversions read exotically (inf/nan, digit separators), every overlapping pattern pair with its winner (keywords/literals before identifiers, longer word = identifier), skip patterns == whitespace / // comments, no whitespace or comment start inside tokens. Exactness of from_str is NOT decided.",
+   note="lalrpop_util::lexer semantics (read); rules/lexre.py regex subset (fails closed); std / rust_decimal conversions trusted on their documented syntax."),
+ "C14": dict(cat="other", ref="DESIGN.md §3.14", technique="tag table of the constant folder + MIR summaries of the rule builder + grammar shape of Rule",
+   text="Decided clauses: constant folding is exhaustive over the 47 node kinds (only literals, lists and maps of constants); the metadata table (name key x folded tag, other keys, non-constant -> error naming the key, last occurrence wins); comment name/description only fill in when metadata did not; missing name -> MissingRuleName; Rule = MetaItem* Expr over the same Expr nonterminal. The comment-line extraction itself is NOT decided.",
+   note=TB_MIR + "grammar extraction as in C07; std Result-collect / BTreeMap::insert semantics."),
+ "C16": dict(cat="other", ref="DESIGN.md §3.16", technique="printer templates (format_args! byte code decoded from MIR) composed and re-parsed with the extracted grammar (Earley over sentential forms); leaf languages and token boundaries by automata on the lexer table",
+   text="For all 47 node kinds alone and all 2444 (parent, hole, child) compositions the printed token string must parse back to exactly the printed tree; each literal kind's printed language must lie inside its token and strings must be escaped by the inverse of the unescape table; no last token of a child rendering may be extended by the character that follows it. 28 failing obligations are genuine round-trip defects (known findings).",
+   note="C07 (grammar == table, unambiguous); Display languages of i128/f64/Decimal from a small trusted table; grandchildren are atoms (depth-2 compositions)."),
+})
 NA_REASON = "check not built yet (build in progress, see DESIGN.md §5)"
 
 checks = []
@@ -76,6 +93,7 @@ m = {
            "baseline_off_cmd": "cd /repo && cargo test --workspace --no-fail-fast --offline", "source_commits": [], "add_only": True},
  "engines": [
    {"name": "mirfacts", "path": "engines/mirfacts", "serves_properties": sorted(CHECKS), "kind_free_text": "rustc_private driver (nightly) exporting pre-borrowck MIR, resolved callees, types, impls, statics and a monomorphic call graph as JSON; injected as RUSTC_WORKSPACE_WRAPPER under cargo +nightly check"},
+   {"name": "gramfacts+lexre+cfg", "path": "rules", "serves_properties": ["C06", "C07", "C08", "C14", "C15", "C16"], "kind_free_text": "extraction of the expanded BNF / terminal map / lexer table from the parser lalrpop generated in the same cargo check (rules/gramfacts.py), regular-language automata over the table (rules/lexre.py), grammar algorithms: inlining, bisimulation, Earley over sentential forms (rules/cfg.py)"},
    {"name": "typewit", "path": "engines/typewit", "serves_properties": ["C18"], "kind_free_text": "compile-only witness crate (auto-trait assertions + negative/positive twins), type-checked with cargo check against the analysed tree"},
    {"name": "rules", "path": "rules", "serves_properties": sorted(CHECKS), "kind_free_text": "python3 (stdlib only) rule layer: tag-symbolic abstract interpreter over the exported MIR (tss.py), normaliser, hazard classifier, per-property rules and spec tables"},
  ],
